@@ -871,7 +871,44 @@ class _Gen:
     def text(self):
         return ["text", self.pick(TEXTS)]
 
+    def const_container(self):
+        """A fully constant expression whose value is a container of metacharacter-rich string literals (folded at compile
+        time: the constant-output path must escape the container's repr, quotes included)."""
+        lst = ["list", [self.s_lit() if self.chance(3, 4) else ["i", self.i(0, 9)] for _ in range(self.i(1, 3))]]
+        strs = ["list", [self.s_lit() for _ in range(self.i(1, 3))]]
+        dct = ["dict", [[self.pick(XKEYS), self.s_lit()] for _ in range(self.i(1, 2))]]
+        k = self.pick(("list", "tuple", "dict", "chars", "sort", "unique", "batch", "dictsort", "items", "map", "reverse", "slice", "nested", "listf"))
+        if k == "list":
+            return lst
+        if k == "tuple":
+            return ["tuple", lst[1]]
+        if k == "dict":
+            return dct
+        if k == "chars":
+            return ["f", "list", self.s_lit(), [], []]
+        if k == "sort":
+            return ["f", "sort", strs, [], []]
+        if k == "unique":
+            return ["f", "list", ["f", "unique", strs, [], []], [], []]
+        if k == "batch":
+            return ["f", "list", ["f", "batch", strs, [["i", 2]], []], [], []]
+        if k == "dictsort":
+            return ["f", "dictsort", dct, [], []]
+        if k == "items":
+            return ["f", "list", ["f", "items", dct, [], []], [], []]
+        if k == "map":
+            return ["f", "list", ["f", "map", strs, [["s", self.pick(("upper", "trim", "string"))]], []], [], []]
+        if k == "reverse":
+            return ["f", "list", ["f", "reverse", strs, [], []], [], []]
+        if k == "slice":
+            return ["f", "list", ["f", "slice", strs, [["i", 2]], []], [], []]
+        if k == "nested":
+            return ["list", [lst, dct]]
+        return ["f", "list", lst, [], []]
+
     def out(self, lex):
+        if self.chance(1, 12):
+            return ["out", self.const_container()]
         if self.neutral and lex.libs and self.chance(1, 8):
             # a module object is only ever printed directly (TemplateModule.__html__); `lib ~ x`, `x + lib`, join with a
             # module and lib|string turn it into a plain string first (finding N4 of c16.py)
